@@ -5,3 +5,43 @@ spec fn okfin<V: Clone>(a: Tree<V>, b: Tree<V>, k: u32) -> bool {
     && forall|x: u32| x != k && view(a).contains_key(x) ==> #[trigger] view(b)[x] == view(a)[x]
 }
 
+
+/// the number of nodes is the number of keys of the view
+proof fn lemma_view_len<V: Clone>(t: Tree<V>, lo: int, hi: int)
+    requires bst(t, lo, hi)
+    ensures view(t).dom().finite(), view(t).dom().len() == nsz(t),
+    decreases t
+{
+    match t {
+        None => { assert(view(t).dom() =~= Set::<u32>::empty()); },
+        Some(rc) => match *rc {
+            Node::Data(d) => {
+                lemma_view_len(d.left, lo, d.key as int); lemma_view_len(d.right, d.key as int, hi);
+                lemma_view_dom(d.left, lo, d.key as int); lemma_view_dom(d.right, d.key as int, hi);
+                let a = view(d.left).dom(); let b = view(d.right).dom();
+                assert(a.disjoint(b)) by {
+                    assert forall|x: u32| !(a.contains(x) && b.contains(x)) by {
+                        if a.contains(x) && b.contains(x) { assert(view(d.left).contains_key(x)); assert(view(d.right).contains_key(x)); }
+                    }
+                }
+                vstd::set_lib::lemma_set_disjoint_lens(a, b);
+                assert(!(a + b).contains(d.key)) by {
+                    if a.contains(d.key) { assert(view(d.left).contains_key(d.key)); }
+                    if b.contains(d.key) { assert(view(d.right).contains_key(d.key)); }
+                }
+                assert(view(t).dom() =~= (a + b).insert(d.key));
+            },
+            Node::Mapping(_) => {},
+        },
+    }
+}
+
+proof fn lemma_empty_iff_none<V: Clone>(t: Tree<V>)
+    requires tb(t)
+    ensures (nsz(t) == 0) <==> (view(t).dom() =~= Set::<u32>::empty()), t is None <==> nsz(t) == 0,
+{
+    let (lo, hi) = choose|lo: int, hi: int| #[trigger] bst(t, lo, hi);
+    lemma_view_len(t, lo, hi);
+    if nsz(t) != 0 { assert(t is Some); assert(view(t).contains_key(dn(t).key)); }
+    else { assert(view(t).dom().len() == 0); }
+}
